@@ -42,7 +42,8 @@ ASSUMPTIONS = ['log-type functions: Re(z1 - i z2) > 0 and Re(z1 + i z2) > 0 (nei
                'modulus not below 1e-15 (the zero-divisor branch of __pow__ is not taken), magnitudes below 1e150 (clip inactive)']
 NOT_DECIDED = ['size of the neighbourhood in floating point; branch behaviour away from the real domain beyond the bounded '
                'sampling; O(h^2) truncation constants (the exact Taylor structure is proved instead)']
-BOUNDED = ['branch group: concrete sampling (fixed grid of bicomplex arguments incl. negative real parts, zero divisors, '
+BOUNDED = ['default-step-derivatives: Derivative(f, method=multicomplex, n=1|2) with the default step (about 8 eps) against the analytic derivative for 32 expressions / functions at positive and negative points and on a mixed-sign array (82 obligations, rtol 1e-8), floating point -- not proved; arcsin/arccos/arctan n=2 fail on the unchanged tree (known finding F14)',
+           'branch group: concrete sampling (fixed grid of bicomplex arguments incl. negative real parts, zero divisors, '
            'arrays mixing both) -- a stand-in, not a proof',
            'branch group, small arguments: 75 samples (5 functions x base points 1e-9..3e-4 x relative perturbations 1e-6..1e-1) compared component-wise (rtol 1e-12) with the idempotent spec evaluated in exact rational arithmetic -- floating point, not proved', 'array arguments: shape (2,) executed for the element-wise clause']
 QUANTIFIED = 'z1 = a + ib, z2 = c + id (four reals), second operands likewise: universally quantified'
@@ -54,7 +55,8 @@ def enumerated(tier):
 
 def groups(tier):
     return [('ring', ('ring',)), ('entire', ('entire',)), ('log', ('log',)), ('compose', ('compose',)),
-            ('consumers', ('consumers',)), ('branch', ('branch',)), ('containers', ('containers',))]
+            ('consumers', ('consumers',)), ('branch', ('branch',)), ('containers', ('containers',)),
+            ('default-step-derivatives', ('defstep',))]
 
 
 def functions_under_contract():
@@ -440,6 +442,24 @@ def run_compose():
                 if not good:
                     continue
                 out = good[0].value
+                if pname == 'int' and 'log_of' not in rec:
+                    # integer powers computed in the ring (repeated multiplication): the idempotent components are u**p, v**p
+                    ua, va = comps(A)
+                    for pint in (3, 2, 0, 1, -1, -2, 2.0, 5):
+                        oo = A ** pint
+                        ou, ov = comps(oo)
+                        k = int(pint)
+                        if k >= 0:
+                            su, sv = (ua ** k if k else C(R(1), R(0))), (va ** k if k else C(R(1), R(0)))
+                            solve.prove('compose:pow-int(%r):e1-component==u**p' % (pint,), ceq(ou, su), [])
+                            solve.prove('compose:pow-int(%r):e2-component==v**p' % (pint,), ceq(ov, sv), [])
+                        else:
+                            # u**k * u**-k == 1 wherever u != 0 (cleared form: no division in the goal)
+                            nz = [z3.Or(ua.re.t != 0, ua.im.t != 0), z3.Or(va.re.t != 0, va.im.t != 0)]
+                            solve.prove('compose:pow-int(%r):e1-component*u**%d==1' % (pint, -k), ceq(ou * ua ** (-k), C(R(1), R(0))), nz)
+                            solve.prove('compose:pow-int(%r):e2-component*v**%d==1' % (pint, -k), ceq(ov * va ** (-k), C(R(1), R(0))), nz)
+                    solve.fact('compose:pow-int:is-exp(log(x)*p)-on-the-invertible-branch', True, note='computed in the ring; components proved directly')
+                    continue
                 ok = rec.get('log_of') is A
                 eo = rec.get('exp_of')
                 want = mc.Bicomplex(cplx('L1'), cplx('L2')) * pval
@@ -620,7 +640,20 @@ def run_containers():
     return {}
 
 
+def run_defstep():
+    """bounded stand-in for the last sentence of the property AT THE STEP THE LIBRARY USES (h about 8 eps): the exact-arithmetic
+    proofs above cannot see what survives rounding at that step size (residues like sin(n*pi) != 0, or 1 + h losing digits of h)"""
+    import numdifftools as nd
+    from ndvc.concrete import multicomplex_default_step_cases
+    res = multicomplex_default_step_cases(nd)
+    for name, (ok, detail) in sorted(res.items()):
+        solve.fact(name + ':multicomplex-derivative-at-the-default-step==analytic(rtol 1e-8)', ok, kind='bounded', note=str(detail)[:200] if detail else '')
+    return dict(default_step_cases=len(res))
+
+
 def run_group(args):
+    if args[0] == 'defstep':
+        return run_defstep()
     if args[0] == 'containers':
         return run_containers()
     return {'ring': run_ring, 'entire': run_entire, 'log': run_log, 'compose': run_compose, 'consumers': run_consumers,
@@ -633,5 +666,7 @@ def replay_case(ob):
         return dict(kind='C12.small')
     if ob['name'].startswith('containers/'):
         return dict(kind='C12.containers')
+    if ob['name'].startswith('default-step-derivatives/'):
+        return dict(kind='C12.defstep', name=ob['name'].split('/', 1)[1].rsplit(':', 1)[0])
     fn = nm.split(':')[1] if ':' in nm else ''
     return dict(kind='C12.idempotent', group=ob['name'].split('/')[0], function=fn)
